@@ -17,7 +17,15 @@ RE1 == RE0 \cup {Bin(k, x, y) : k \in {"cat", "alt"}, x \in RE0, y \in RE0}
 RE2 == RE1 \cup {Bin(k, x, y) : k \in {"cat", "alt"}, x \in RE1, y \in RE0}
            \cup {Bin(k, x, y) : k \in {"cat", "alt"}, x \in RE0, y \in RE1}
            \cup {Un(k, x) : k \in {"opt", "star", "plus"}, x \in {r \in RE1 : MinLen(r) > 0}}
-Exprs == IF Depth2 THEN RE2 ELSE RE1
+\* anchors inside a group the author wrote, next to a literal of two bytes: (\A x+)ab, ab(x+ \z), (\A)ab, (^x*)ab ...
+Var0 == {Un("plus", Lit(97)), Un("plus", Cls({97, 98})), Un("star", Atom("any")), Un("opt", Lit(97)), Lit(97)}
+Lit2 == {Bin("cat", Lit(x), Lit(y)) : x \in {97, 98}, y \in {98, 65}}
+Anchored == {Bin("cat", Un("grp", Bin("cat", a, v)), l) : a \in {Atom("bot"), Atom("bol")}, v \in Var0, l \in Lit2}
+            \cup {Bin("cat", l, Un("grp", Bin("cat", v, a))) : a \in {Atom("eot"), Atom("eol")}, v \in Var0, l \in Lit2}
+            \cup {Bin("cat", Un("grp", a), l) : a \in {Atom("bot"), Atom("bol")}, l \in Lit2}
+            \cup {Bin("cat", l, Un("grp", a)) : a \in {Atom("eot"), Atom("eol")}, l \in Lit2}
+            \cup {Un("grp", Bin("cat", Bin("cat", Atom("bot"), v), l)) : v \in Var0, l \in Lit2}
+Exprs == (IF Depth2 THEN RE2 ELSE RE1) \cup Anchored
 
 RECURSIVE Strs(_)
 Strs(n) == IF n = 0 THEN {<< >>} ELSE Strs(n - 1) \cup {Append(q, c) : q \in {x \in Strs(n - 1) : Len(x) = n - 1}, c \in Alphabet}
